@@ -19,14 +19,15 @@ import numpy as np, pandas as pd
 from . import common as C
 
 PROP = "C02"; LEVEL = "other"; P_TIER = True
-SCOPE = {"quick": "key sequences over {null,a,b,c} ({a,b,c} for never-null dtypes, {F,T} for bool): GroupBy invariant for n<=4 (np float/str; n<=3 other containers) x 26 single-key containers "
-                  "(numpy float/str/int/bool/datetime/float32, Categorical and categorical Series with unused categories, Series float/str/Int64, Index, RangeIndex start x step incl. negative, "
-                  "pyarrow float/str/int/dictionary, pandas ArrowDtype, polars float/str/int/categorical) x sort on/off; 2 keys (8 container pairs, every sequence of key pairs over {null,a,b}^2, n<=3 for 4 pairs and n<=2 for 4) and 3 keys "
-                  "(4 container triples, n<=2, plus n=3 with the first row fixed for 2 triples) with a null in each position; chunked route: THRESHOLD_FOR_CHUNKED_FACTORIZE=1 on numpy float/int/str/datetime/bool, Series, RangeIndex, pyarrow, polars keys (n<=4; float n<=5; "
-                  "plus float keys [b,a]+t and [a,b,c,a]+t for every t over {null,a,b,c}^4 so that a chunk holds a null next to a non-null key) "
-                  "and pa.chunked_array keys in every split of the rows into <=3 chunks incl. empty chunks (float with nulls n<=3, null-free float n<=4, int n<=3, str n<=2); factorize_1d (all containers, n<=3, sort on/off), "
-                  "factorize_2d (2-3 keys, sort x parallel x dict tracker), monotonic_factorization (n<=4, 9 containers, chunkings); seeded random cases up to 12 rows",
-         "thorough": "as quick with one more row in every stream (chunked arrow n<=5), random cases up to 40 rows, and 6 designed 1_000_000-row keys through the real threshold (tiled with/without NaN, sorted prefix, fully sorted, int, datetime)"}
+SCOPE = {"quick": "key sequences over {null,a,b,c} ({a,b,c} for never-null dtypes, {F,T} for bool). GroupBy invariant: 21 single-key containers (numpy float/str/int/bool/datetime/float32, Categorical and categorical Series "
+                  "with unused categories, Series float (non-default row labels)/str/Int64, Index, pyarrow float/str/int/dictionary, pandas ArrowDtype, polars float/str/int/categorical) x every sequence n<=3 (n<=4 numpy float/str) "
+                  "x sort on/off; RangeIndex start {0,3,-4} x step {1,2,3,-1,-2} x n<=4; 2 keys (8 container pairs, every sequence of key pairs over {null,a,b}^2, n<=3 for 4 pairs, n<=2 for 4) and 3 keys (4 triples, n<=2, "
+                  "plus n=3 with the first row fixed for 2 triples) with a null in each position; chunk-wise route by THRESHOLD_FOR_CHUNKED_FACTORIZE=1 on numpy float (n<=5) / int, datetime, Series float (n<=4) / "
+                  "str, bool, Series str, pyarrow, polars (n<=3) and RangeIndex, plus float keys [b,a]+t and [a,b,c,a]+t for every t over {null,a,b,c}^4 (a chunk then holds a null next to a non-null key, with and without a "
+                  "monotone piece in front); pa.chunked_array keys in every split of the rows into <=3 chunks incl. empty chunks (float with nulls n<=3, null-free float n<=4, int n<=3, str n<=2); chunk-local codes are read "
+                  "through the pointer tables, re-read after `groups`, and after _unify_group_key_chunks() on a separate instance. factorize_1d: all containers n<=3 x sort on/off, arrow chunkings, RangeIndex; "
+                  "factorize_2d: 4 pairs n<=3 and 2 triples x sort x {parallel, serial, dict tracker}; monotonic_factorization: 9 containers n<=4, arrow chunkings n<=3, RangeIndex; seeded random cases up to 12 rows",
+         "thorough": "as quick with one more row in every stream (chunked arrow float n<=5), random cases up to 40 rows, and 6 designed 1_000_000-row keys through the real threshold (tiled with/without NaN, sorted prefix + tail, fully sorted with 142858 labels, int, datetime with NaT)"}
 RULE = "a case = (depth gb|f1|f2|mono, container kind(s), key sequence, sort, route plain|thr|chunks, flags); distinct = distinct canonical JSON; non-trivial = at least two distinct non-null keys, or a null key, or a chunked route"
 ASSUMPTIONS = ["pd.factorize / pyarrow dictionary_encode / Index.get_indexer / drop_duplicates are external; their results are checked against the key sequence in scope, not trusted",
                "label equality is Python == on the label read back from result_index (np.float32 keys compared after the same rounding)",
@@ -409,7 +410,9 @@ def _check_gb(sess, case):
         with _threshold(case.get("route") == "thr"), _quiet(): return GroupBy(obj, sort=case["sort"])
     try: gb = construct(); calls += 1
     except Exception as ex:
-        rec("raises", "GroupBy.__init__", f"constructing a grouping from a supported key container must not fail: {type(ex).__name__}", str(ex)[:200]); return 1
+        kinds = case["kinds"] if case["kind"] == "multi" else [case["kind"]]
+        what = ("string" if any(BASE.get(k) in ("str", "cat") for k in kinds) else "numeric") + (" key with a null" if any(is_null_key(k) for k in keys) else " key without null")
+        rec("raises", "GroupBy.__init__", f"constructing a grouping from a supported key container must not fail: {type(ex).__name__} on a {what}", str(ex)[:200]); return 1
     try:
         codes, err = logical_codes(gb); labels = list(gb.result_index)
     except Exception as ex:
